@@ -309,7 +309,7 @@ func replayCase(sub string, raw json.RawMessage) string {
 			return m
 		}
 		return checkEnviron(c)
-	case "custom", "custom-ctx", "custom-prog", "custom-arity":
+	case "custom", "custom-ctx", "custom-prog", "custom-arity", "custom-drain":
 		var c customCase
 		if m := un(&c); m != "" {
 			return m
